@@ -82,4 +82,26 @@ def vergleiche : Text → Text → Int
   | _ :: _, [] => 1
   | x :: r, y :: s => if x == y then vergleiche r s else (x : Int) - y
 
+/-! ### numbers (Duden/Mathe) -/
+def max2 (a b : Int) : Int := if a ≥ b then a else b
+def min2 (a b : Int) : Int := if a ≤ b then a else b
+def max3 (a b c : Int) : Int := max2 (max2 a b) c
+def min3 (a b c : Int) : Int := min2 (min2 a b) c
+def clamp (wert lo hi : Int) : Int := if wert > hi then hi else if wert < lo then lo else wert
+def sign (a : Int) : Int := if a < 0 then -1 else if a > 0 then 1 else 0
+/-- greatest common divisor of two positive numbers -/
+def ggT (a b : Nat) : Nat := Nat.gcd a b
+/-- least common multiple -/
+def kgV (a b : Nat) : Nat := a * b / Nat.gcd a b
+def teilbar (a : Int) (b : Nat) : Bool := a % (b : Int) == 0
+/-- prime factors in ascending order by trial division (`z ≥ 2`) -/
+def primAux : Nat → Nat → Nat → List Nat
+  | 0, n, _ => if n > 1 then [n] else []
+  | fuel + 1, n, d =>
+    if n ≤ 1 then []
+    else if d * d > n then [n]
+    else if n % d == 0 then d :: primAux fuel (n / d) d
+    else primAux fuel n (d + 1)
+def primfaktoren (z : Nat) : List Nat := primAux (2 * z) z 2
+
 end DDP.Duden
